@@ -86,15 +86,17 @@ PROPS["C01"] = {
     "assumptions": ["programs over the modelled builtin vocabulary", "hash-map literals with effectful values are evaluated in Go map order (outside the property's program class)"],
 }
 PROPS["C03"] = {
-    "model_is_spec": ['try'],
+    "model_is_spec": ['try', 'goerr'],
     "lean_module": "LispModel.Props.C03",
-    "engines": [{"name": "try", "quick": 5000, "thorough": 100000}],
+    "engines": [{"name": "try", "quick": 5000, "thorough": 100000},
+                {"name": "goerr", "quick": 2000, "thorough": 40000}],
     "technique": "Lean 4 theorems about the try/catch/finally arm of the evaluator model + differential correspondence on nested try programs",
     "level_text": "Theorems: value of try = body value or handler value (returned, not re-evaluated), catch variable scoped to the handler, finally runs exactly "
                   "once on every path without changing the outcome, thrown payload unchanged through calls / builtin callbacks / nested tries; tie: generated "
                   "programs nesting try/catch/finally with throws from body, callee, builtin, handler, finally.",
     "level_note": _EVAL_NOTE,
-    "assumptions": ["Go error objects are compared by class (payload kind), errors.Is reachability is exercised by the harness only"],
+    "assumptions": ["Go error objects are compared by class (payload kind); errors.Is reachability of a planted sentinel is checked by the "
+                    "goerr engine's harness-side oracle (the model has no Unwrap chains)"],
 }
 PROPS["C04"] = {
     "lean_module": "LispModel.Props.C04",
